@@ -17,7 +17,7 @@ ASSUMPTIONS = [
 
 THRX = {"C14", "C17", "C18"}
 SEQX_ALSO = {"C01", "C15"}
-THRX_ALSO = {"C03", "C04", "C07", "C08", "C09", "C10", "C11", "C12", "C15", "C16"}
+THRX_ALSO = {"C03", "C04", "C05", "C07", "C08", "C09", "C10", "C11", "C12", "C13", "C15", "C16"}
 MACX = {"C01", "C03", "C04", "C05", "C06", "C07", "C09", "C10", "C11", "C12", "C13", "C14", "C15", "C16", "C20"}
 
 
@@ -200,6 +200,11 @@ def evidence(pid, tier, records):
             "cold_start_drivers": sum(1 for d in drivers if d["label"].startswith("COLD:")),
             "cold_start_child_processes": sum(d["schedules"] for d in drivers if d["label"].startswith("COLD:")),
             "dashmap_shard_of_driver_keys": shard_note(),
+            "sequential_equivalence": {
+                "final_states_judged": sum(d.get("sequential_equivalence", {}).get("final_states_judged", 0) for d in drivers),
+                "continuations_run": sum(d.get("sequential_equivalence", {}).get("continuations_run", 0) for d in drivers),
+                "sequential_orders_tried": sum(d.get("sequential_equivalence", {}).get("sequential_orders_tried", 0) for d in drivers),
+            },
         }
         cov["schedules"] = sched
         cov["preemption_bound_completed"] = cov["thrx"]["preemption_bound_completed"]
